@@ -104,7 +104,7 @@ func checkSystemKeepalive(c *Ctx, r *Report) {
 		r.Anchor(rule, "(*transport.System).buildOpenArgs")
 		return
 	}
-	paths := EnumeratePaths(c, fn, &dtConfig{IsAtomCall: func(call *ssa.Call) bool { return true }})
+	paths := EnumeratePaths(c, fn, &dtConfig{IsAtomCall: atomsExcept()})
 	a := "param:" + fn.Params[1].Name()
 	want := `fmt.Sprintf("ServerAliveInterval=%d",{time.Duration.Seconds(` + a + `.TimeoutSocket)})`
 	n, missing := 0, 0
@@ -122,7 +122,7 @@ func checkSystemKeepalive(c *Ctx, r *Report) {
 		args := flattenAppend(final)
 		found := false
 		for i := 0; i+1 < len(args); i++ {
-			if args[i] == `"-o"` && args[i+1] == want {
+			if args[i] == `"-o"` && normFmtKey(args[i+1]) == normFmtKey(want) {
 				found = true
 			}
 		}
